@@ -147,9 +147,14 @@ def seg_dry(rng, jd0, length, z_now, z_base):
 
 def gen_spec(rng, size=None):
     """Draw a synthetic dataset spec."""
-    dt = rng.choice([600, 1200, 1800, 1800, 3600])
+    # time steps that divide an hour, that do not (45 min), and that exceed it (2 h, daily)
+    dt = rng.choice([600, 1200, 1800, 1800, 3600, 3600, 900, 2700, 7200, 86400])
     s0 = rng.choice([2.0, 4.0, 8.0])
     j0 = rng.choice([2.0, 5.0, 8.0])
+    if dt > 3600:
+        # keep the water-level change per step (and with it the number of grid levels a rise
+        # crosses) in the same range as for sub-hourly records: the nominal rate shrinks instead
+        j0 = _r3(j0 * 3600.0 / dt)
     jd0 = j0 * dt / 3600.0
     if size is None:
         size = rng.choice(["s", "s", "m", "m", "l"])
